@@ -15,6 +15,7 @@ factory), prop (property used as guard).
 from __future__ import annotations
 
 import functools
+import inspect
 import json
 
 from bind_gen import (DFLT, NAME_ID, RESERVED, USER_NAMES, UNKNOWN, canon_frame, canon_model_frame, param_tok,
@@ -154,7 +155,9 @@ def gen_scenario(rng, name, p_async=0.25, p_fwd=0.3, p_typeerror=0.08):
         if form in ("conv", "mname", "model", "lconv", "func", "deco") and allow_async and rng.random() < 0.4:
             cb["is_async"] = True
         if form in ("conv", "mname", "model", "lconv", "func") and rng.random() < 0.2:
-            cb["wrapped"] = True      # behind a signature-preserving decorator (functools.wraps)
+            # behind a signature-preserving decorator (functools.wraps); "sig": one that also sets `__signature__`
+            # to the signature of what it wraps (for a method that signature lists the instance: D43)
+            cb["wrapped"] = rng.choice([True, "sig"])
         if form == "twin":
             cb["is_async"] = True
             cbs.append(cb)
@@ -331,7 +334,8 @@ def _def(cb, first=None, indent="", name=None, body_id=None, deco=None):
     cid = cb["id"] if body_id is None else body_id
     head = f"{indent}{'async ' if cb['is_async'] else ''}def {nm}({sig_text(sig, first=first)}):\n"
     body = f"{indent}    return REC({cid}, {record_expr(sig)})\n"
-    wrap = f"{indent}@{'AWRAP' if cb['is_async'] else 'WRAP'}\n" if cb.get("wrapped") else ""
+    wrap = f"{indent}@{'S' if cb.get('wrapped') == 'sig' else ''}{'AWRAP' if cb['is_async'] else 'WRAP'}\n" \
+        if cb.get("wrapped") else ""
     return (f"{indent}{deco}\n" if deco else "") + wrap + head + body
 
 
@@ -440,8 +444,18 @@ def run_impl(scn):
             return await f(*a, **k)
         return wrapper
 
+    def SWRAP(f):
+        w = WRAP(f)
+        w.__signature__ = inspect.signature(f)
+        return w
+
+    def SAWRAP(f):
+        w = AWRAP(f)
+        w.__signature__ = inspect.signature(f)
+        return w
+
     ns = {"StateMachine": StateMachine, "State": State, "REC": rec.rec, "_D": DFLT, "functools": functools,
-          "WRAP": WRAP, "AWRAP": AWRAP}
+          "WRAP": WRAP, "AWRAP": AWRAP, "SWRAP": SWRAP, "SAWRAP": SAWRAP}
     exec(src, ns)  # noqa: S102
     sm = ns["M"](ns["MODEL"], listeners=ns["LISTENERS"])
     rec.sm = sm
